@@ -65,28 +65,65 @@ def _r1(ctx):
     pkg = package(ctx.tree)
     fn = pkg.method("TemplateLoader", "_assign_rates")
     ctx.saw(FILE, "TemplateLoader._assign_rates")
-    fl = Flow(fn, FILE)
+    # small loop-free helpers of the class (self._x(..)) are read as the expressions they return
+    fl = Flow(fn, FILE, resolver=lambda name: pkg.resolve("TemplateLoader", name)[1])
     W = (FILE, fn.lineno)
     rets = [f for f in fl.facts if f.kind == "return"]
     if len(rets) != 1:
         ctx.unrec("R1", "_assign_rates:return", W, f"expected one return, found {len(rets)}")
         return
     v = simp(rets[0].value)
-    if v[0] != "comp" or len(v[3]) != 1:
-        ctx.unrec("R1", "_assign_rates:return", (FILE, rets[0].line), "returned value is not a single comprehension over the reactions")
-        return
-    tg, it, ifs = v[3][0]
+    from ..valueflow import seq_base, loop_built_seq, as_map
+    if v[0] == "comp" and len(v[3]) == 1:
+        tg, it, ifs = v[3][0]
+        elt0 = v[2]
+    else:
+        # the same list written as `out = []; for ..: <build the statement>; out.append(statement)`
+        lb = loop_built_seq(fl, v[1]) if v[0] == "acc" else None
+        if lb is None:
+            ctx.unrec("R1", "_assign_rates:return", (FILE, rets[0].line), "returned value is not a single comprehension (or one-append-per-iteration loop) over the reactions")
+            return
+        it, ifs, elt0 = lb[0].iter, (), lb[1]
     R = ("param", "reactions")
     # the comprehension enumerates zip(guards, rate expressions), both position-preserving views of `reactions`
-    from ..valueflow import seq_base
     b = match(("call", ("global", "enumerate"), (V("z"),), ()), it)
-    ok_it = bool(b) and b["z"][0] == "call" and b["z"][1] == ("global", "zip") and all(seq_base(a) == R for a in b["z"][2]) and not ifs
+    zargs = b["z"][2] if b and b["z"][0] == "call" and b["z"][1] == ("global", "zip") and not b["z"][3] else None
+
+    import builtins
+
+    def sources(a):
+        """[(sequence the view ranges over, filtered?)] of a list value: through if/else arms, comprehensions, zip"""
+        a = simp(a)
+        if a[0] in ("phi", "ifexp"):
+            return sources(a[2]) + sources(a[3])
+        if a[0] == "copy":
+            return sources(a[1])
+        if a[0] == "comp" and len(a[3]) == 1:
+            tg_, it_, ifs_ = a[3][0]
+            inner = [x for z in it_[2] for x in sources(z)] if it_[0] == "call" and it_[1] == ("global", "zip") and not it_[3] else sources(it_)
+            return [(b_, f_ or bool(ifs_)) for b_, f_ in inner]
+        return [(a, False)]
+
+    def opaque(b_):
+        """a sequence whose construction this rule cannot see (un-inlined helper of the class, list filled by an unreviewed loop);
+        a parameter, an attribute, a builtin applied to those (reversed(..), sorted(..), x[1:]) is visible"""
+        if b_[0] in ("param", "attr", "global", "sub", "list", "tuple"):
+            return False
+        if b_[0] == "call" and b_[1][0] == "global" and hasattr(builtins, b_[1][1]):
+            return any(opaque(x) for x in b_[2])
+        return True
+    srcs = [x for a in zargs for x in sources(a)] if zargs is not None else []
+    if zargs is None or any(opaque(b_) for b_, _ in srcs):
+        ctx.unrec("R1", "_assign_rates:iteration", (FILE, rets[0].line),
+                  "cannot see how the statements are paired with the reactions (expected enumerate(zip(guards, rates)) over views of `reactions`): " + show(it)[:160])
+        return
+    ok_it = all(seq_base(a) == R for a in zargs) and not ifs
     ctx.check(ok_it, "R1", "_assign_rates:iteration", (FILE, rets[0].line),
               "statements are built over enumerate(zip(guards, rates)) where both are unfiltered one-to-one views of the same `reactions` list",
               found=show(it)[:200])
     if not ok_it:
         return
-    elt = expand_bvals(fl, v[2])
+    elt = expand_bvals(fl, simp(elt0))     # (simp first: elements of comprehensions are resolved while their variables are still bound)
     lids = {x[2] for x in walk(elt) if isinstance(x, tuple) and len(x) == 3 and x[0] == "idx" and x[1] == R}
     if len(lids) != 1:
         ctx.unrec("R1", "_assign_rates:index", (FILE, rets[0].line), "cannot identify the enumerate counter in the statement")
@@ -480,4 +517,29 @@ MUTANTS = [
 BENIGN = [
     {"name": "rename-comprehension-var", "file": T, "old": 'ltranges = [f"Tgas>={r.temp_min}" if r.temp_min > 0 else "" for r in reactions]', "new": 'ltranges = [f"Tgas>={x.temp_min}" if x.temp_min > 0 else "" for x in reactions]'},
     {"name": "concat-guard", "file": T, "old": '"".join([lt, " && " if lt and ut else "", ut])', "new": 'lt + (" && " if lt and ut else "") + ut'},
+]
+_STMT_COMP = (
+    '        rateassign = [\n            "\\n".join(\n                [\n                    f"if ({trange}) {{",\n                    f"{rate_sym}[{ridx}] = {rateexpr};",\n'
+    '                    f"}}",\n                ]\n            )\n            if trange\n            else f"{rate_sym}[{ridx}] = {rateexpr};"\n'
+    '            for ridx, (trange, rateexpr) in enumerate(zip(tranges, rateexprs))\n        ]\n')
+_STMT_LOOP = (
+    '        rateassign = []\n        for ridx, (trange, rateexpr) in enumerate(zip(tranges, rateexprs)):\n            assign = f"{rate_sym}[{ridx}] = {rateexpr};"\n'
+    '            if trange:\n                assign = "if (" + trange + ") {\\n" + assign + "\\n}"\n            rateassign.append(assign)\n')
+_LT = 'ltranges = [f"Tgas>={r.temp_min}" if r.temp_min > 0 else "" for r in reactions]'
+_UT = 'utranges = [f"Tgas<{r.temp_max}" if r.temp_max > 0 else "" for r in reactions]'
+MUTANTS += [
+    # the statement list written as a loop: the same defects are still seen
+    {"name": "loop-form-upper-inclusive", "edits": [{"file": T, "old": _STMT_COMP, "new": _STMT_LOOP}, {"file": T, "old": 'f"Tgas<{r.temp_max}"', "new": 'f"Tgas<={r.temp_max}"'}], "rules": ["R1"]},
+    {"name": "loop-form-guard-not-enclosing", "edits": [{"file": T, "old": _STMT_COMP, "new": _STMT_LOOP.replace('"if (" + trange + ") {\\n" + assign + "\\n}"', '"if (" + trange + ") {\\n}\\n" + assign')}], "rules": ["R1"]},
+    {"name": "limits-helper-other-bound", "edits": [
+        {"file": T, "old": "    def _assign_rates(\n", "new": "    @staticmethod\n    def _limits(reactions, bound, rel):\n        return [f\"Tgas{rel}{getattr(x, bound)}\" if getattr(x, bound) > 0 else \"\" for x in reactions]\n\n    def _assign_rates(\n"},
+        {"file": T, "old": _LT, "new": 'ltranges = self._limits(reactions, "temp_max", ">=")'}], "rules": ["R1"]},
+]
+BENIGN += [
+    {"name": "statements-built-by-loop", "file": T, "old": _STMT_COMP, "new": _STMT_LOOP},
+    {"name": "limits-by-helper-getattr", "edits": [
+        {"file": T, "old": "    def _assign_rates(\n", "new": "    @staticmethod\n    def _limits(reactions, bound, rel):\n        return [f\"Tgas{rel}{getattr(x, bound)}\" if getattr(x, bound) > 0 else \"\" for x in reactions]\n\n    def _assign_rates(\n"},
+        {"file": T, "old": _LT, "new": 'ltranges = self._limits(reactions, "temp_min", ">=")'},
+        {"file": T, "old": _UT, "new": 'utranges = self._limits(reactions, "temp_max", "<")'}]},
+    {"name": "guard-joined-through-filter", "file": T, "old": '"".join([lt, " && " if lt and ut else "", ut])\n            for lt, ut in zip(ltranges, utranges)', "new": '" && ".join(filter(None, pair))\n            for pair in zip(ltranges, utranges)'},
 ]
